@@ -425,7 +425,8 @@ def provider_keys(style, mm=None, want="reg"):
 class Prop(Check):
     ID = "C08"
     LEAN_MODULE = "TextxVerif.Props.C08"
-    THEOREMS = ["Resolve.C08_order", "Resolve.C08_targets", "Resolve.C08_prefix_sorted", "Resolve.C08_append_false",
+    THEOREMS = ["Resolve.C08_order", "Resolve.C08_targets", "Resolve.C08_prefix_sorted", "Resolve.C08_prefix_sublist",
+                "Resolve.C08_schedule_independent", "Resolve.C08_append_false",
                 "RefList.C08_keyed_order", "RefList.C08_keyed_positions", "RefList.C08_history_order",
                 "RefList.C08_shared_book_false", "RefList.C08_falsy_position_false",
                 "Resolve.C08_append_spec", "RefList.C08_loop_keyed", "RefList.C08_loop_keyed_files",
